@@ -471,9 +471,35 @@ def analyse_kernel(folded, schema, e3=None):
     return rep
 
 
-def quick_schemas():
+def size_thresholds(call_fn):
+    """integer literals (3..64) the kernel builder compares a length with - la, lb, lm, len(..) or a local computed from
+    them: a branch taken only beyond such a size (a long-filter fast path) is folded too, see quick_schemas"""
+    sized = {"la", "lb", "lm"}
+    for _ in range(3):
+        for n in ast.walk(call_fn):
+            if isinstance(n, ast.Assign) and len(n.targets) == 1 and isinstance(n.targets[0], ast.Name) \
+                    and any((isinstance(x, ast.Name) and x.id in sized) or (
+                        isinstance(x, ast.Call) and isinstance(x.func, ast.Name) and x.func.id == "len") for x in ast.walk(n.value)) \
+                    and not any(isinstance(x, ast.Compare) for x in ast.walk(n.value)):
+                sized.add(n.targets[0].id)
+    out = set()
+    for n in ast.walk(call_fn):
+        if isinstance(n, ast.Compare):
+            parts = [n.left] + list(n.comparators)
+            about_size = any((isinstance(x, ast.Name) and x.id in sized) or (
+                isinstance(x, ast.Call) and isinstance(x.func, ast.Name) and x.func.id == "len")
+                for p_ in parts for x in ast.walk(p_))
+            if about_size:
+                for p_ in parts:
+                    if isinstance(p_, ast.Constant) and type(p_.value) is int and 3 <= p_.value <= 64:
+                        out.add(p_.value)
+    return sorted(out)
+
+
+def quick_schemas(thresholds=()):
     """Representative schemas: every coefficient class at every position up to
-    delay 2 against a few partners, gaps, and the text flavours of pasted values."""
+    delay 2 against a few partners, gaps, and the text flavours of pasted values; plus, for every size the builder
+    itself compares lengths with, filters just below, at and beyond that size."""
     num_classes = [None, "one", "minus_one", "generic", "stream"]
     den0 = ["one", "minus_one", "generic"]
     out = []
@@ -496,6 +522,12 @@ def quick_schemas():
     out.append(({0: "generic", 3: "one"}, {0: "one", 4: "generic"}))
     out.append(({5: "minus_one"}, {0: "generic", 1: "stream", 5: "minus_one"}))
     out.append(({2: "stream"}, {0: "minus_one", 3: "stream"}))
+    for t in thresholds:
+        for o in (t - 1, t, t + 1, t + 2):
+            if o >= 3:
+                out.append(({0: "generic", 1: "one"}, {0: "one", 1: "generic", o: "generic"}))
+                out.append(({0: "one", o: "generic"}, {0: "generic", 2: "minus_one"}))
+                out.append(({o: "stream"}, {0: "minus_one", 1: "stream", o: "generic"}))
     # pasted-text flavours (operator precedence of str(value))
     for fl in ("frac", "negfrac", "neg", "float", "negfloat"):
         out.append(({0: ("generic", fl), 1: ("generic", fl)}, {0: ("generic", fl), 1: ("generic", fl)}))
